@@ -263,8 +263,10 @@ def model_op(case, r):
         "always": case["recreate"] == "always",
         "ops": [jop(o, case.get("schema")) for o in case["ops"]],
         "fault": case["fault"],
-        "commitOnError": case["scope"] == "swallow",
-        "mode": case.get("iso", "default"),
+        # caller's SAVEPOINT: the SAVEPOINT statement itself opens SQLite's transaction (on every connection mode), so the whole batch
+        # runs inside one transaction; RELEASE + COMMIT after the caught error keeps what was executed, ROLLBACK TO discards it
+        "commitOnError": case["scope"] in ("swallow", "sp_release"),
+        "mode": "begin" if str(case["scope"]).startswith("sp_") else case.get("iso", "default"),
         "tddl": bool(case.get("tddl")),
         "fault_kind": case.get("fkind", "exception"),
         "partial_reordering": case.get("pr") or [],
